@@ -720,10 +720,17 @@ def d_device_configurations(m):
     dc.pipeline_stage = 1
     sp = dc.sharding_spec.add()
     sp.tensor_name = "x"
-    sp.device.extend([0, -1])
+    sp.device.extend([0, -1, -2])
     me = sp.index_to_device_group_map.add()
     me.key = -1
     me.value.extend([0, 1])
+    # several groups, listed in an order that is neither ascending nor descending by key
+    me2 = sp.index_to_device_group_map.add()
+    me2.key = -3
+    me2.value.extend([1])
+    me3 = sp.index_to_device_group_map.add()
+    me3.key = -2
+    me3.value.extend([1, 0])
     sd = sp.sharded_dim.add()
     sd.axis = 0
     ss = sd.simple_sharding.add()
